@@ -679,6 +679,8 @@ class BuiltinMixin:
         if items is not None:
             start = 0
             return [(st, st.alloc(HList(items=[VTuple((const(i + start), x)) for i, x in enumerate(items)])))]
+        if self.as_seq(st, args[0]) is not None and len(args) == 1:
+            return [(st, VConst(("enumerate", args[0])))]
         raise Unsupported("enumerate over symbolic iterable")
 
     def b_zip(self, st, args, kwargs):
@@ -1243,6 +1245,16 @@ class BuiltinMixin:
 
     def b_urllib_parse_unquote_plus(self, st, args, kwargs):
         return [(st, VStr(z3.Function("unquote_plus", S, S)(self._s(args[0]))))]
+
+    def m_str_splitlines(self, st, sv, args, kwargs):
+        """splitlines(keepends=True): the lines concatenate to the string and none is empty
+        (DESIGN 3); modelled as an uninterpreted sequence with its prefix-sum function"""
+        keep = kwargs.get("keepends", args[0] if args else const(False))
+        ok, kv = concrete(keep)
+        if not ok or not kv:
+            raise Unsupported("splitlines without keepends=True")
+        seq = z3.Function("splitlines_keepends", S, SeqU)(sv.t)
+        return [(st, st.alloc(HList(seq=seq)))]
 
     def m_str_split(self, st, sv, args, kwargs):
         sep = args[0] if args else NONE
